@@ -85,7 +85,7 @@ def user_funcs(spec):
 @st.composite
 def system(draw, n_sim=(1, 6), q_hi=80, q_lo=0, feedforward=None, lags=(0, 3), exos=(0, 2), consts=(0, 2),
            aliases=(0, 0), leaves=(0, 0), const_mag=5000, horizon=(1, 5), ic_prob=0, nonlinear=False,
-           gain=None, tols=('1e-6',), user_t=(False,), alias_ic=True, max_row_terms=3):
+           gain=None, tols=('1e-6',), user_t=(False,), alias_ic=True, max_row_terms=3, time_terms=True):
     """
     Affine (optionally mildly non-linear) system with certified sup-norm contraction factor.
     Coefficients are in hundredths; every row (leaves included) has sum |coef| <= q/100.
@@ -98,7 +98,9 @@ def system(draw, n_sim=(1, 6), q_hi=80, q_lo=0, feedforward=None, lags=(0, 3), e
     n_exo = draw(st.integers(*exos))
     n_const = draw(st.integers(*consts))
     maxtime = draw(st.integers(*horizon))
-    lag_src = [sim[draw(st.integers(0, n - 1))] for _ in range(n_lag)]
+    # lag sources: mostly simultaneous variables, sometimes an exogenous series or a constant (lags of anything stored)
+    lag_pool = list(sim) + list(sim) + EXO_NAMES[:n_exo] + CONST_NAMES[:n_const]
+    lag_src = [draw(st.sampled_from(lag_pool)) for _ in range(n_lag)]
     lag_src = list(dict.fromkeys(lag_src))
     lag_spell = [draw(st.sampled_from(['(k-1)', '(k-1)', '(t-1)', ' (k -1 )'])) for _ in lag_src]
     lagn = ['LAG_' + s for s in lag_src]
@@ -135,6 +137,9 @@ def system(draw, n_sim=(1, 6), q_hi=80, q_lo=0, feedforward=None, lags=(0, 3), e
                     parts.append(('-' if c < 0 else '+', body))
                 else:
                     parts.append(fmt_coef_term(c, var, style))
+        if time_terms and kind != 'leaf' and draw(st.sampled_from([False, False, False, False, True])):
+            # a small time trend: k is the step counter, t the (default or user-defined) time axis
+            parts.append(('+', draw(st.sampled_from(['0.01*k', '0.02*t', 'k*0.005']))))
         cst = draw(st.integers(-const_mag, const_mag))
         if cst != 0 or not parts:
             parts.insert(draw(st.integers(0, len(parts))), ('-' if cst < 0 else '+', dec(abs(cst))))
